@@ -14,7 +14,14 @@ Three parties see every case line (protocol: extract/depslog_run.ml = harness/ru
 A failure is a known finding only if the independent parse of the INPUT bytes puts it in a listed defect class:
   stray-size-bytes-not-truncated : the file (or an ancestor in the history) ends 1-3 bytes after a record boundary
   depslog-reader-ub              : the first record the intended reader rejects is one of UB_CLASSES
-Where the implementation already behaves like `ref` and the model does not (the defect was repaired), that is accepted and counted."""
+DOCUMENTED DEVIATIONS model <-> implementation (never reported, neither as violation nor as broken correspondence; counted in the evidence
+under distribution.documented_model_deviations).  DepsLogDefs.v transliterates the loader as it was when the model was written, defects
+included; once a defect is repaired in the working tree the implementation agrees with `ref` and no longer with the model:
+  fixed-stray-bytes : the input (or an ancestor) ends 1-3 bytes after a record boundary; the model says "no truncation" and lets the next
+                      session append behind the stray bytes, the repaired loader cuts the file back to the boundary (= ref)
+  fixed-reader-ub   : the first bad record is in UB_CLASSES; the model says `unsafe <class>` (or accepts a phantom out id), the repaired
+                      loader rejects the record and truncates in front of it (= ref)
+A deviation is accepted ONLY when the implementation's result equals the reference result AND the input is in one of these two classes."""
 import os, random, re, shutil, struct, subprocess, resource, tempfile, time
 from concurrent.futures import ThreadPoolExecutor
 import vlib
@@ -30,6 +37,8 @@ ASSUMPTIONS = ['little-endian machine with 32-bit int (the model and the referen
                'recorded paths are non-empty and do not end in NUL (DepsLogDefs.wf_path: RecordId asserts on the empty path, Load strips trailing NULs as padding)',
                'out ids >= 2^23 in damaged files make the unfixed reader allocate more than the 64 MiB the harness allows (ASan max_allocation_size_mb): '
                'counted as a crash of the depslog-reader-ub family, the model (which has no memory limit) says "ok" there',
+               'DepsLogDefs.v models the loader with its original defects; where the working tree has repaired one, the implementation is compared with the python reference instead '
+               '(documented deviation classes fixed-stray-bytes / fixed-reader-ub, counted in coverage.distribution.documented_model_deviations): the theorems then speak about the old loader on those inputs',
                'torn writes are modelled as prefixes of the byte sequence the writer appended (records are flushed whole, in order)']
 
 HDR = b'# ninjadeps\n' + struct.pack('<i', 4)
@@ -93,7 +102,9 @@ def ref_load(data):
         off += 4 + sz
     return t, off, why
 
-def wants_recompaction(t, why): return why == 'eof' and t.total > 1000 and t.total > t.uniq * 3
+def wants_recompaction(t, why):
+    # after a clean end, or after dropping 1-3 bytes of a torn size word (not an error: the log is whole)
+    return why in ('eof', 'stray') and t.total > 1000 and t.total > t.uniq * 3
 
 def ref_record(t, op):
     out, m, ins = op; made = False; w = b''
@@ -278,7 +289,7 @@ class St:
         s.ctx, s.impl, s.model = ctx, impl, model
         s.n = 0; s.lines = set(); s.nontrivial = set()
         s.fails = []           # (family|None, case, oracle, detail)
-        s.stage = {}; s.whys = {}; s.crash_kinds = {}; s.repaired = 0; s.x86_variant = 0; s.oom = 0; s.crashes = 0
+        s.stage = {}; s.whys = {}; s.crash_kinds = {}; s.deviations = {}; s.x86_variant = 0; s.oom = 0; s.crashes = 0
         s.samples = {}
         s.t_impl = s.t_model = 0.0; s.safe_files = 0
 
@@ -287,6 +298,12 @@ def family_of(c, is_crash):
     if is_crash: return READER_UB if any(t in UB_CLASSES for t in tags) else None
     if 'stray' in tags: return STRAY
     if any(t in UB_CLASSES for t in tags): return READER_UB
+    return None
+
+def deviation_class(c):
+    tags = c.tags()
+    if 'stray' in tags: return 'fixed-stray-bytes'
+    if any(t in UB_CLASSES for t in tags): return 'fixed-reader-ub'
     return None
 
 def evaluate(st, cases):
@@ -319,7 +336,8 @@ def evaluate(st, cases):
                 if 'allocation-size-too-big' in i and 'out-id-unknown' in c.tags(): st.oom += 1
                 else: st.ctx.corr_broken.append('%s: model %s impl %s' % (c.line[:300], m[:200], i[:200]))
             elif n != m:
-                if n == c.ref: st.repaired += 1        # the implementation behaves as the intended reader where the model has the defect
+                dev = deviation_class(c)
+                if n == c.ref and dev: st.deviations[dev] = st.deviations.get(dev, 0) + 1     # documented: the model still has the repaired defect
                 else: recheck.append(c)
         # -- the property, on the implementation alone
         if cr:
@@ -628,6 +646,8 @@ def run_in(ctx, impl, model):
         dead = {outs[0]}
         hists.append(dict(file=None, steps=[('session', (), ops), ('session', dead, [(outs[-1], -7, [b'new'])]), ('load', (), ())],
                           oracle='recompact-live', stage='E-threshold', taint=set()))
+        hists.append(dict(file=None, steps=[('session', (), ops), ('tail', b'\x0c\x00'), ('session', dead, [(outs[-1], -7, [b'new'])]), ('load', (), ())],
+                          oracle='recompact-live', stage='E-threshold', taint=set()))
         hists.append(dict(file=None, steps=[('session', (), ops), ('cut', 0.999), ('session', dead, []), ('recompact', {outs[-1]}, ()), ('load', (), ())],
                           oracle='recompact-live', stage='E-threshold', taint=set()))
     history_rounds(st, hists)
@@ -646,6 +666,8 @@ def run_in(ctx, impl, model):
     return report(ctx, st, q, n_exh_cuts=n_exh_cuts, nwords=nwords, nseq=len(seqs))
 
 def report(ctx, st, q, **kw):
+    if st.deviations:
+        vlib.log('note: the implementation matches the reference reader, not the (unrepaired) model, on %s -- documented deviation classes, not reported' % st.deviations)
     groups = {}
     for fam, c, oracle, detail in st.fails: groups.setdefault(fam, []).append((c, oracle, detail))
     def listed(slug, props):
@@ -718,5 +740,5 @@ def report(ctx, st, q, **kw):
         samples=[st.samples[k] for k in sorted(st.samples)] or ['(replay)'],
         distribution=dict(stages=st.stage, input_class_of_first_rejected_record=st.whys, distinct_case_lines=len(st.lines), impl_crashes=st.crashes, crash_kinds=st.crash_kinds,
                           failures_by_family={str(k): len(v) for k, v in [(STRAY, [f for f in st.fails if f[0] == STRAY]), (READER_UB, [f for f in st.fails if f[0] == READER_UB]), ('unclassified', [f for f in st.fails if f[0] is None])]},
-                          impl_matches_reference_where_model_has_the_defect=st.repaired, impl_matches_x86_model_variant=st.x86_variant, files_safe_by_safe_file=st.safe_files, alloc_limit_crashes_model_ok=st.oom,
+                          documented_model_deviations=st.deviations, impl_matches_x86_model_variant=st.x86_variant, files_safe_by_safe_file=st.safe_files, alloc_limit_crashes_model_ok=st.oom,
                           op_sequences=kw.get('nseq', 0), seconds_impl=round(st.t_impl, 1), seconds_model=round(st.t_model, 1), processes=NPROC))
